@@ -14,7 +14,6 @@ CODES = {
     31: "C04 monitor: character string without string type encoded with universal tag 0",
     4: "C05 monitor: Go decode(encode(v)) != v",
     41: "C05 monitor: decode(encode(v)) != v for an EXPLICIT-tagged type",
-    42: "C05 monitor: value containing a member without context tag marshals but does not unmarshal (error)",
     5: "C04 monitor: Go BerMarshal panicked",
     6: "dec(model) != outcome of Go UnmarshalWithParams on arbitrary bytes",
     7: "C16 monitor: Go Unmarshal panicked or did not terminate",
@@ -23,10 +22,10 @@ CODES = {
 # which codes decide which property: (correspondence codes, monitor codes)
 ROLE = {
     "C04": ([1], [3, 31, 5]),
-    "C05": ([1, 2], [4, 41, 42]),
+    "C05": ([1, 2], [4, 41]),
     "C16": ([6, 2], [7, 71]),
 }
-KNOWN_KEYS = {42: "C05/untagged-member", 31: "C04/plain-string-universal-tag"}
+KNOWN_KEYS = {}
 PROPS = {"C04": "Ber/PropsC04.v", "C05": "Ber/PropsC05.v", "C16": "Ber/PropsC16.v"}
 
 
@@ -78,6 +77,7 @@ def run(ctx, replay=None):
     for cid, code in mism:
         by_code.setdefault(code, []).append(cid)
     corr_codes, mon_codes = ROLE[pid]
+    outside = by_code.pop(90, [])
 
     def rep(cid, code):
         e = index.get(cid, {})
@@ -134,6 +134,7 @@ def run(ctx, replay=None):
         "samples": [v["input"] for k, v in sorted(index.items())[:4]],
         "input_distribution": {"value_classes": classes, "case_kinds": kinds, "schema_types_exercised": schema_hit},
         "mismatches": {str(k): len(v) for k, v in by_code.items()},
+        "marshalled_values_outside_C05_hypotheses": {"count": len(outside), "examples": [index.get(c, {}).get("input", "")[:200] for c in sorted(outside)[:5]]} if mode == "rt" else None,
     })
     if sweep:
         cov["exhaustive_sweep"] = sweep
